@@ -15,12 +15,12 @@ EXPLANATION = (
     'reservation inside the move-failure handler; (R16.3) every return of Failure is '
     'dominated by a WARNING-level log call whose message contains the argument; (R16.4) no '
     'state is carried from one argument to the next (no store into, or append to, an '
-    'object created before the iteration, except the failure list).  Equality of each '
+    'object created before the iteration, except the failure list); (R16.5) from the exceptional exit of a payload MOVE no run-consistent path reaches a Success verdict without another MOVE succeeding first.  Equality of each '
     'argument\'s outcome with its stand-alone outcome is not decided.')
 ASSUMPTIONS = ['A4/A5/A6 of DESIGN.md section 8',
                'programmer-assertion raises (constant-message ValueError/Exception in '
                'defensive branches) are stated beliefs, listed in evidence']
-MINIMUM = {'R16.1': 4, 'R16.2': 8, 'R16.3': 3, 'R16.4': 1}
+MINIMUM = {'R16.1': 4, 'R16.2': 8, 'R16.3': 3, 'R16.4': 1, 'R16.5': 1}
 MODELLED = ('OSError', 'ValueError', 'TypeError', 'UnicodeError', 'UnicodeEncodeError',
             'UnicodeDecodeError', 'KeyError', 'IndexError', 'AttributeError', 'Exception')
 
@@ -152,6 +152,27 @@ def check(ctx):
         ctx.ob('R16.1', 'a Failure result is always recorded', skip is None, node=fr,
                message='a Failure result can reach the next argument without being added to '
                        'the failure list (exit status 0 although an argument failed)')
+    # ---- R16.5 a move that failed is never counted as trashed: from the exceptional exit
+    # of a payload MOVE no consistent path reaches a "Success" verdict without another
+    # MOVE (the next candidate) succeeding first -- whatever the errno
+    succ_rets = [n for n in b.nodes('return') if n.id in region and
+                 flat(n.data.get('value')) and all(
+        isinstance(a, EnumVal) and a.name == 'Success' for a in flat(n.data.get('value')))
+        and all(o is None or o == n.id for a, o in alts(n.data.get('value')))]
+    for m in r.moves:
+        starts = exc_successors(b, m.id)
+        if not starts:
+            continue
+        bad = None
+        for sr in succ_rets:
+            pth = feasible_path(b, starts, sr.id, blocked=[x.id for x in r.moves] + [loop.id])
+            if pth is not None:
+                bad = sr
+                break
+        ctx.ob('R16.5', 'a failed move never ends in the verdict Success', bad is None, node=m,
+               message='when this move fails the argument can still be reported as trashed '
+                       '(%s reached without another move): exit status 0 and no diagnostic '
+                       'although the entry is still in place' % (bad.loc() if bad else ''))
     # exit code
     exit_rets = [n for n in b.nodes('return') if g.exit in [t for t, _ in g.succ[n.id]]]
     ok_code = bad_code = False
